@@ -77,13 +77,13 @@ func runC07(tier, replay string) int {
 	var runs []run
 	if c.Quick() {
 		runs = append(runs,
-			run{"exhaustive<=2 members", core.TLCOpts{Spec: "LayoutGen", CfgText: layoutCfg(2, 1, "all", "{0, 16}", "{999, 12}", "{3}", true), Workers: 4}},
+			run{"exhaustive<=2 members", core.TLCOpts{Spec: "LayoutGen", CfgText: layoutCfg(2, 1, "all", "{0, 16}", "{999, 12}", "{3, 4}", true), Workers: 4}},
 			run{"f32only<=3 members", core.TLCOpts{Spec: "LayoutGen", CfgText: layoutCfg(3, 1, "f32only", "{0, 16}", "{999}", "{}", false), Workers: 2}},
-			run{"nested simulation", core.TLCOpts{Spec: "LayoutGen", CfgText: layoutCfg(3, 3, "all", "{0, 8, 16, 32}", "{999, 0, 12, 20}", "{2, 3}", true), Simulate: "num=400", Depth: 12, Seed: c.Seed}},
+			run{"nested simulation", core.TLCOpts{Spec: "LayoutGen", CfgText: layoutCfg(3, 3, "all", "{0, 8, 16, 32}", "{999, 0, 12, 20}", "{2, 3, 5}", true), Simulate: "num=400", Depth: 12, Seed: c.Seed}},
 		)
 	} else {
 		runs = append(runs,
-			run{"exhaustive<=2 members, all attrs", core.TLCOpts{Spec: "LayoutGen", CfgText: layoutCfg(2, 1, "all", "{0, 8, 16, 32}", "{999, 0, 12}", "{3}", true), Workers: 8, HeapGB: 8}},
+			run{"exhaustive<=2 members, all attrs", core.TLCOpts{Spec: "LayoutGen", CfgText: layoutCfg(2, 1, "all", "{0, 8, 16, 32}", "{999, 0, 12}", "{3, 4}", true), Workers: 8, HeapGB: 8}},
 			run{"f32only<=3 members", core.TLCOpts{Spec: "LayoutGen", CfgText: layoutCfg(3, 1, "f32only", "{0, 16, 32}", "{999, 4}", "{2}", true), Workers: 8, HeapGB: 8}},
 			run{"nested simulation", core.TLCOpts{Spec: "LayoutGen", CfgText: layoutCfg(4, 3, "all", "{0, 8, 16, 32, 64}", "{999, 0, 4, 12, 20}", "{1, 2, 3, 5}", true), Simulate: "num=2500", Depth: 16, Seed: c.Seed}},
 		)
